@@ -245,7 +245,16 @@ def error_fields_rule(ctx, w):
             txt = json.dumps(body)
             out |= set(re.findall(r'\{"k": "const", "ty": "&str", "v": "([a-z_]+)"\}', txt))
         return out
-    read = consts(fnew[0])
+    # the name table may sit in a private helper of the module that Field::new consults (`Field::known(&str) -> Option<Self>`): one level of callees
+    fam = [fnew[0]]
+    for body in M.all_bodies(fnew[0]):
+        for _, c in M.calls(body):
+            g_ = w.lookup(M.callee_name(c))
+            if g_ is not None and "body" in g_ and g_["path"].startswith("ruma_client_api::error::kind_serde::") and g_ not in fam:
+                fam.append(g_)
+    read = set()
+    for g_ in fam:
+        read |= consts(g_)
     written = set()
     for body in M.all_bodies(fser[0]):
         for _, c in M.calls(body):
